@@ -203,4 +203,211 @@ theorem guard_itoa (v : Int) (max : Nat) : Guard max (itoa v max).2 := by
             simp only at this ⊢
             refine guard_set (guard_revLoop _ _ _ this.1 (by omega) (by omega)) _ _ (by omega) (by omega)
 
+/-! ### mechanism = spec when the buffer is large enough -/
+
+/-- digits least significant first; `[]` for 0 (the digit loop does not run) -/
+def rdigits (v : Nat) : Bytes := if h : v = 0 then [] else (48 + v % 10) :: rdigits (v / 10)
+termination_by v
+decreasing_by omega
+
+theorem digits_eq_rdigits (v : Nat) (h : 0 < v) : digits v = (rdigits v).reverse := by
+  induction v using Nat.strongRecOn with
+  | _ v ih =>
+    rw [digits, rdigits]
+    split
+    · rename_i h10
+      have h0 : v / 10 = 0 := by omega
+      have hm : v % 10 = v := by omega
+      rw [dif_neg (by omega), h0, rdigits]; simp [hm]
+    · rw [dif_neg (by omega), ih (v / 10) (by omega) (by omega)]; simp
+
+theorem getD_at (a r : List Nat) (x : Nat) : (a ++ x :: r).getD a.length 0 = x := by
+  simp [List.getD_eq_getElem?_getD]
+
+theorem set_at (a r : List Nat) (x y : Nat) : (a ++ x :: r).set a.length y = a ++ y :: r := by
+  simp
+
+/-- without overflow the digit loop writes the digits, least significant first, at `p` -/
+theorem digitLoop_noovf (max ptr : Nat) (v : Nat) (a mid b : List Nat) (ret : Nat)
+    (hlen : mid.length = (rdigits v).length) (hmax : ret + mid.length < max) :
+    digitLoop max ptr v (a ++ mid ++ b) ret a.length
+      = (a ++ rdigits v ++ b, ret + mid.length, a.length + mid.length) := by
+  induction v using Nat.strongRecOn generalizing a mid ret with
+  | _ v ih =>
+    rw [digitLoop, rdigits]
+    split
+    · rename_i h0
+      rw [rdigits, dif_pos h0] at hlen
+      have : mid = [] := List.length_eq_zero_iff.mp hlen
+      subst this; simp
+    · rename_i h0
+      rw [rdigits, dif_neg h0] at hlen
+      cases mid with
+      | nil => simp at hlen
+      | cons x t =>
+        simp only [List.length_cons] at hlen hmax
+        have hr : ¬ (ret + 1 ≥ max) := by omega
+        simp only [hr, false_and, if_false]
+        have e1 : a ++ x :: t ++ b = a ++ x :: (t ++ b) := by simp
+        rw [e1, set_at]
+        have e2 : a ++ (48 + v % 10) :: (t ++ b) = (a ++ [48 + v % 10]) ++ t ++ b := by simp
+        have e3 : a.length + 1 = (a ++ [48 + v % 10]).length := by simp
+        rw [e2, e3, ih (v / 10) (by omega) _ t (ret + 1) (by omega) (by omega)]
+        simp only [List.length_append, List.length_cons, List.length_nil, List.append_assoc,
+          List.cons_append, List.nil_append, Prod.mk.injEq, true_and]
+        omega
+
+/-- the reversal loop reverses the window `[ptr, p)` -/
+theorem revLoop_spec (a mid b : List Nat) :
+    revLoop (a ++ mid ++ b) a.length (a.length + mid.length) = a ++ mid.reverse ++ b := by
+  suffices H : ∀ (n : Nat) (a mid b : List Nat), mid.length = n →
+      revLoop (a ++ mid ++ b) a.length (a.length + mid.length) = a ++ mid.reverse ++ b from
+    H _ a mid b rfl
+  intro n
+  induction n using Nat.strongRecOn with
+  | _ n ih =>
+    intro a mid b hn
+    rw [revLoop]
+    cases mid with
+    | nil => simp
+    | cons x t =>
+      simp only [List.length_cons] at hn
+      rw [dif_pos (by simp)]
+      simp only
+      rcases List.eq_nil_or_concat t with rfl | ⟨t', y, rfl⟩
+      · have e1 : a ++ [x] ++ b = a ++ x :: b := by simp
+        have e0 : a.length + [x].length - 1 = a.length := by simp
+        rw [e1, e0, getD_at, set_at, set_at, revLoop, dif_neg (by omega)]
+        simp
+      · have e0 : a.length + (x :: (t' ++ [y])).length - 1 = (a ++ x :: t').length := by simp
+        have e1 : a ++ x :: (t' ++ [y]) ++ b = (a ++ x :: t') ++ y :: b := by simp
+        have e2 : (a ++ x :: t') ++ y :: b = a ++ x :: (t' ++ y :: b) := by simp
+        simp only [List.concat_eq_append, List.length_append, List.length_cons, List.length_nil] at hn
+        simp only [List.concat_eq_append]
+        rw [e0, e1, getD_at, set_at]
+        rw [e2, getD_at]
+        have e3 : (a ++ x :: t') ++ x :: b = a ++ x :: (t' ++ x :: b) := by simp
+        rw [e3, set_at]
+        have e4 : a ++ y :: (t' ++ x :: b) = (a ++ [y]) ++ t' ++ ([x] ++ b) := by simp
+        have e5 : a.length + 1 = (a ++ [y]).length := by simp
+        have e6 : (a ++ x :: t').length = (a ++ [y]).length + t'.length := by simp; omega
+        rw [e4, e5, e6, ih t'.length (by omega) _ t' _ rfl]
+        simp
+
+theorem rdigits_length (n : Nat) (h : 0 < n) : (rdigits n).length = (digits n).length := by
+  rw [digits_eq_rdigits n h]; simp
+
+theorem digits_ne_zero (n : Nat) : ∀ c ∈ digits n, c ≠ 0 := by
+  intro c hc; have := digits_all n c hc; unfold isDig at this; omega
+
+theorem cstr_spec (a s rest : List Nat) (ha : a.length = pad) (hs : ∀ c ∈ s, c ≠ 0) :
+    cstr (a ++ s ++ 0 :: rest) = s := by
+  unfold cstr
+  rw [List.append_assoc, List.drop_left' ha, List.takeWhile_append_of_pos (by simpa using hs)]
+  simp
+
+/-- digit loop, reversal and terminating NUL on a window of fresh cells: the digits of `n` -/
+theorem itoa_run (max n : Nat) (a : List Nat) (ret r : Nat) (hn : 0 < n)
+    (hmax : ret + (digits n).length < max) :
+    let m := a ++ List.replicate ((digits n).length + 1 + r) fill
+    let d := digitLoop max a.length n m ret a.length
+    d.2.1 = ret + (digits n).length ∧
+    (revLoop d.1 a.length d.2.2).set d.2.2 0 = a ++ digits n ++ 0 :: List.replicate r fill := by
+  intro m d
+  have hm : m = a ++ List.replicate (digits n).length fill ++ List.replicate (1 + r) fill := by
+    simp only [m, List.append_assoc, List.replicate_append_replicate]; congr 2; omega
+  have hd : d = (a ++ rdigits n ++ List.replicate (1 + r) fill, ret + (digits n).length,
+      a.length + (digits n).length) := by
+    simp only [d, hm]
+    have := digitLoop_noovf max a.length n a (List.replicate (digits n).length fill)
+      (List.replicate (1 + r) fill) ret (by simp [rdigits_length n hn]) (by simpa using hmax)
+    simpa using this
+  rw [hd]
+  refine ⟨rfl, ?_⟩
+  simp only
+  have := revLoop_spec a (rdigits n) (List.replicate (1 + r) fill)
+  rw [rdigits_length n hn, ← digits_eq_rdigits n hn] at this
+  rw [this]
+  have e : a.length + (digits n).length = (a ++ digits n).length := by simp
+  have e2 : List.replicate (1 + r) fill = fill :: List.replicate r fill := by
+    rw [Nat.add_comm, List.replicate_succ]
+  rw [e, e2, set_at]
+
+theorem set_at' (a r : List Nat) (x y i : Nat) (h : a.length = i) :
+    (a ++ x :: r).set i y = a ++ y :: r := by subst h; exact set_at a r x y
+
+theorem itoa_spec (v : Int) (max : Nat) (lo : -2 ^ 63 < v) (hlen : (itoaSpec v).length < max) :
+    cstr (itoa v max).2 = itoaSpec v ∧ (itoa v max).1 = (itoaSpec v).length := by
+  have hA : (List.replicate pad fill).length = pad := by simp
+  unfold itoaSpec at *
+  unfold itoa
+  have hmax1 : ¬ max < 1 := by omega
+  simp only [hmax1, if_false]
+  by_cases h0 : v = 0
+  · subst h0
+    have hd : digits (0 : Int).natAbs = [48] := by rw [digits]; simp
+    simp only [hd, Int.lt_irrefl, if_false, List.length_cons, List.length_nil] at hlen ⊢
+    have : ¬ (1 ≥ max) := by omega
+    simp only [this, if_true, if_false]
+    have e : Mem.init max = List.replicate pad fill ++ fill :: fill :: List.replicate (max + pad - 2) fill := by
+      simp only [Mem.init, ← List.replicate_succ, List.replicate_append_replicate]; congr 1; omega
+    rw [e, set_at' _ _ _ _ _ hA]
+    have e2 : List.replicate pad fill ++ 48 :: fill :: List.replicate (max + pad - 2) fill
+        = (List.replicate pad fill ++ [48]) ++ fill :: List.replicate (max + pad - 2) fill := by simp
+    rw [e2, set_at' _ _ _ _ _ (by simp)]
+    exact ⟨cstr_spec _ [48] _ hA (by simp), trivial⟩
+  · have hmin : v ≠ -(2 ^ 63 : Int) := by omega
+    simp only [h0, hmin, if_false]
+    have hn : 0 < v.natAbs := by omega
+    by_cases hneg : v < 0
+    · simp only [hneg, if_true, List.length_cons] at hlen ⊢
+      have hm : ¬ (True ∧ 1 ≥ max) := by omega
+      simp only [hm, if_false]
+      let a := List.replicate pad fill ++ [45]
+      have ha : a.length = pad + 1 := by simp [a]
+      have e : (Mem.init max).set pad 45
+          = a ++ List.replicate ((digits v.natAbs).length + 1 + (max + pad - (digits v.natAbs).length - 2)) fill := by
+        have : Mem.init max = List.replicate pad fill ++ fill ::
+            List.replicate ((digits v.natAbs).length + 1 + (max + pad - (digits v.natAbs).length - 2)) fill := by
+          simp only [Mem.init, ← List.replicate_succ, List.replicate_append_replicate]; congr 1; omega
+        rw [this, set_at' _ _ _ _ _ hA]; simp [a]
+      have H := itoa_run max v.natAbs a 1 (max + pad - (digits v.natAbs).length - 2) hn (by omega)
+      rw [e, ← ha]
+      revert H
+      simp only
+      generalize digitLoop max a.length v.natAbs _ 1 a.length = d
+      obtain ⟨m', ret', p'⟩ := d
+      intro H
+      simp only at H ⊢
+      rw [H.2, H.1]
+      refine ⟨?_, by omega⟩
+      have e3 : a ++ digits v.natAbs ++ 0 :: List.replicate (max + pad - (digits v.natAbs).length - 2) fill
+          = List.replicate pad fill ++ (45 :: digits v.natAbs) ++ 0 :: List.replicate (max + pad - (digits v.natAbs).length - 2) fill := by
+        simp [a]
+      rw [e3]
+      exact cstr_spec _ _ _ hA (by
+        intro c hc
+        simp only [List.mem_cons] at hc
+        rcases hc with rfl | hc
+        · decide
+        · exact digits_ne_zero _ c hc)
+    · simp only [hneg, if_false] at hlen ⊢
+      simp only [false_and, if_false]
+      let a := List.replicate pad fill
+      have e : Mem.init max
+          = a ++ List.replicate ((digits v.natAbs).length + 1 + (max + pad - (digits v.natAbs).length - 1)) fill := by
+        simp only [a, Mem.init, List.replicate_append_replicate]; congr 1; omega
+      have H := itoa_run max v.natAbs a 0 (max + pad - (digits v.natAbs).length - 1) hn (by omega)
+      rw [e]
+      generalize max + pad - (digits v.natAbs).length - 1 = r at H ⊢
+      rw [show pad = a.length from hA.symm]
+      revert H
+      simp only
+      generalize digitLoop max a.length v.natAbs _ 0 a.length = d
+      obtain ⟨m', ret', p'⟩ := d
+      intro H
+      simp only at H ⊢
+      rw [H.2, H.1]
+      exact ⟨cstr_spec _ _ _ hA (digits_ne_zero _), by omega⟩
+
 end IwModel.Conv
